@@ -67,6 +67,28 @@ def _init_facts(c: Class):
     return init, added, stored, super_call
 
 
+def delivers(prog: Program, cls, pname: str, depth: int = 0) -> bool:
+    """Does `cls(pname=X)` end with `self.pname` computed from X (stored directly or forwarded up the chain)?"""
+    facts = _init_facts(cls)
+    if facts is None or depth > 6:
+        for b in cls.mro()[1:]:
+            if "__init__" in b.methods:
+                return delivers(prog, b, pname, depth + 1)
+        return False
+    init, _added, stored, super_call = facts
+    if pname not in init.params:
+        return False
+    if pname in stored and names_loaded(stored[pname].value) & set(init.params) == {pname}:
+        return True
+    if super_call is not None:
+        fwd = {k.arg: k.value for k in super_call.keywords if k.arg}
+        if pname in fwd and isinstance(fwd[pname], ast.Name) and fwd[pname].id == pname:
+            for b in cls.mro()[1:]:
+                if "__init__" in b.methods:
+                    return delivers(prog, b, pname, depth + 1)
+    return False
+
+
 def run(ck: Checker, prog: Program, tier: str):
     eng = engine(prog)
     classes = _settings_classes(prog)
